@@ -24,6 +24,12 @@ impl Env {
     pub fn io(&self) -> PathBuf {
         self.base.join("io")
     }
+    /// HOME of the simulated user: outside the world, wiped at the start of every case, kept
+    /// across the invocations of a history (state a tool may legitimately keep there - a cache, a
+    /// history file - must never change what the properties promise)
+    pub fn home(&self) -> PathBuf {
+        self.base.join("home")
+    }
 }
 
 #[derive(Clone, Debug, Default)]
@@ -155,6 +161,7 @@ pub fn run_inv(env: &Env, inv: &Inv) -> io::Result<Outcome> {
         .env("VSIM_SEED", inv.shim_seed.to_string())
         .env("VSIM_READDIR", &inv.readdir)
         .env("VSIM_PLAN", crate::util::os(&plan.join(";")))
+        .env("HOME", env.home())
         .envs(inv.env.iter().map(|(k, v)| (k.as_str(), v.as_str())))
         .env("RUST_BACKTRACE", "0")
         .stdin(Stdio::from(File::open(&stdin_p)?))
